@@ -35,7 +35,7 @@ THEOREMS = [
     ('c16_heap_strict_heap',
      'forall (T : Type) (t : @tree T), HeapS t -> Heap t'),
     ('c16_history_priorities',
-     'forall (T M A : Type) (update : T -> option T -> option T -> T) (push : T -> option T -> option T -> T * option T * option T) (size : T -> Z) (modify : M -> T -> T) (elem : T -> Z) (agg : T -> A) (act : M -> Z -> Z) (aggf : list Z -> A) (Pending : T -> list M -> Prop), lawful update push size modify elem agg act aggf Pending -> forall (mk : Z -> T) (md : amod -> M) (actc : amod -> Z -> Z), (forall v : Z, Fresh size elem agg aggf Pending (mk v)) -> (forall v : Z, elem (mk v) = v) -> (forall (m : amod) (e : Z), act (md m) e = actc m e) -> forall (ps : list Z) (ops : list cop) (want : list (list pv)), prun actc [] ps ops = Some want -> Forall2 (fun t pxs => HeapS t /\\ Rep size elem agg act aggf Pending t (map snd pxs) /\\ prios t = map fst pxs) (run_final update push size modify elem agg ps (map (conv mk md) ops)) want'),
+     'forall (T M A : Type) (update : T -> option T -> option T -> T) (push : T -> option T -> option T -> T * option T * option T) (size : T -> Z) (modify : M -> T -> T) (elem : T -> Z) (agg : T -> A) (act : M -> Z -> Z) (aggf : list Z -> A) (Pending : T -> list M -> Prop), lawful update push size modify elem agg act aggf Pending -> forall (mk : Z -> T) (md : amod -> M) (actc : amod -> Z -> Z), (forall v : Z, Fresh size elem agg aggf Pending (mk v)) -> (forall v : Z, elem (mk v) = v) -> (forall (m : amod) (e : Z), act (md m) e = actc m e) -> forall (ps : list Z) (ops : list cop) (want : list (list pv)), prun actc [] ps ops = Some want -> Forall2 (fun t pxs => HeapS t /\\ Rep size elem agg act aggf Pending t (map snd pxs) /\\ prios t = map fst pxs) (run_final update push size modify elem agg ps (map (conv modify mk md) ops)) want'),
     ('c16_model_check_spec_check',
      'forall c : case, model_check c = true -> spec_check c = true'),
     ('c16_height_partial',
@@ -43,7 +43,7 @@ THEOREMS = [
 ]
 RULE = ("the multi-treap histories of C03, including move = remove_at followed by insert_at of the returned item object, whose new node "
         "draws a new priority (two item kinds; priorities random / tiny range with ties / all equal / increasing / "
-        "decreasing / native draws of the thread-local generator); observed = full final shape of every live treap through the "
+        "decreasing / native draws of the process-wide generator; items that the caller modified before from_item / insert_at, so that they enter with a pending tag, and the real insert_at steered through every rank of the new node, ties included: c03.hybrid_tagged); observed = full final shape of every live treap through the "
         "public fields left/right/priority/item + final collect(); non-trivial = some final treap has >= 3 nodes and the history "
         "contains a split or merge; implementation-level search (extra): sorted appends, front inserts, split-and-swap rotations, "
         "append+remove up to 10^6 nodes with native priorities, heap order + subtree sizes + height <= 5*log2(n+1)+20 at every "
@@ -62,6 +62,8 @@ def generate(rng, tier):
     # move = remove_at + insert_at of the returned item object: every priority assignment, every pair of positions
     cases += c03.exhaustive_move(3, 3, kinds=(0, 1)) if tier == "quick" else c03.exhaustive_move(5, 3, kinds=(0, 1))
     cases += c03.native_move(4 if tier == "quick" else 6, kinds=(0, 1))
+    # a tagged item enters through the REAL insert_at / from_item, the new node at every rank among the others (ties included)
+    cases += c03.hybrid_tagged(2, 2, kinds=(0, 1)) if tier == "quick" else c03.hybrid_tagged(4, 2, kinds=(0, 1))
     n = 1100 if tier == "quick" else 25000
     modes = ["random", "random", "tiny", "tiny", "equal", "inc", "dec", "native", "native", "native"]
     for t in range(n):
@@ -180,7 +182,7 @@ MANIFEST = {
             "nodes on every run. Tied to the code on every run through the public node fields (full shape, priorities, items).",
     "level_note": "Partial: the bound height <= 5*log2(n+1)+20 is a probabilistic statement about the generator and cannot be a universal "
                   "theorem; what is proved is the finite family evaluation. Trusted: Coq kernel + vm_compute; Rust executor; Python "
-                  "printer (incl. its prediction of the thread-local LCG draws, cross-checked against the Coq model of the generator in "
+                  "printer (incl. its prediction of the draws of the process-wide LCG, which the executor resets at the start of every line, cross-checked against the Coq model of the generator in "
                   "every native case); sampled correspondence.",
     "technique": "Coq proof over Gallina model + vm_compute correspondence batches + implementation-level search",
 }
